@@ -323,6 +323,7 @@ class _Table:
                                  board_settings=settings) as server:
                     server.run()
             finally:
+                self.at_main_return['returned'] = True
                 # Server.run is over: what do its threads look like right now?
                 mine = [pt for pt in world.player_threads
                         if getattr(pt.connection, 'port', port) == port]
@@ -388,6 +389,13 @@ class _Table:
                         holder['client'] = cl
                         cl._verif_table = self
                         cl.run()
+                        if cfg.get('linger'):
+                            # this player's program keeps its connection open after "End of
+                            # session" until the table manager's run() has returned (a driver
+                            # that tears everything down at the end; a client that lets the
+                            # server hang up first)
+                            sched.yield_point('linger', None,
+                                              lambda: bool(self.at_main_return.get('returned')))
                 except baton.Abort:
                     raise
                 except BaseException as ex:  # noqa
